@@ -2,6 +2,7 @@
 import lib
 import urlcorr
 import urlpreds
+import aggcorr
 
 
 def check(run):
@@ -9,14 +10,20 @@ def check(run):
                 "every operation the offsets must partition the href, every getter must equal its slice, re-assembly from "
                 "getters and presence predicates must reproduce the href, href size = length, validate() accepts; copies "
                 "taken mid-history must not change when the original (or the copy) is mutated further. non-trivial = "
-                "distinct history prefixes on successfully parsed objects")
+                "distinct history prefixes on successfully parsed objects. L1: each of the 14 modelled editors "
+                "(update_base_*/clear_*/add_authority_slashes_if_needed/set_scheme) is called directly on parsed URLs; the Lean "
+                "Model editor applied to the implementation's own pre-state must give the implementation's post-state (buffer + "
+                "eight offsets), every state must be the layout of the content read back from it (Shape) and the real getters "
+                "must equal the Model getters on that state")
     lib.proof_part(run, gens=("tables",), leanchecker=(run.tier == "thorough"))
     variant = "asan" if run.tier == "thorough" else "plain"
     binp, err = lib.build_harness(variant)
     run.oblige("build:harness", binp is not None, err or "")
     if binp is None:
         return
-    n = 8000 if run.tier == "quick" else 200000
+    # L1: the editors themselves against the Lean model (the tie for the theorems of Props/C07.lean)
+    aggcorr.explore(run, binp, aggcorr.gen_cases(run.rng, 6000 if run.tier == "quick" else 150000))
+    n = 20000 if run.tier == "quick" else 200000
     cases = urlcorr.wpt_cases() + urlcorr.gen_cases(run.rng, n, hist_frac=0.8, maxlen=8)
     # sprinkle copies into the histories
     withc = []
